@@ -18,7 +18,7 @@ META = {
              "one side; distinct by structural hash; non-trivial = contains a Barrier/annotation kind or an explicit relation"),
     "assumptions": ["copies are compared position-wise along the operation listing (signature, relation type, index of the referenced operation, schedule relative to the first start)"],
     "floors": {
-        "quick": {"copies_compared": 6000, "mutation_independence_checks": 3000, "kinds_min_instances": 20},
+        "quick": {"copies_compared": 6000, "mutation_independence_checks": 3000, "kinds_min_instances": 20, "unrolled_copies_compared": 5000},
         "thorough": {"copies_compared": 60000, "mutation_independence_checks": 30000, "kinds_min_instances": 200},
     },
 }
@@ -162,6 +162,17 @@ def check_program(prog: Dict[str, Any], acc: Acc, flags=None):
             only_a, only_b = snap.multiset_diff(got, once + once)
             acc.finding("copy/repetition-content", "a block repeated twice does not list twice the block's operations", case,
                         {"only_library": only_a[:4], "only_expected": only_b[:4]})
+        # ---- route 4: copy of an UNROLLED circuit (group relations of repeated copies must be re-pointed as well)
+        built4 = bp.build(prog, bp.Ctx(prog.get("settings")))
+        unrolled = built4.top.circuit.apply_modifiers()
+        copy4 = unrolled.circuit_structure.copy()
+        outer4 = DeclarativeCircuit()
+        outer4.add(unrolled)
+        ops_u, t_u = listing_with_shadow(unrolled)
+        for route, target in (("structure.copy of unrolled", copy4), ("unrolled added to empty circuit", outer4)):
+            ops_k, t_k = listing_with_shadow(target)
+            compare_snapshots(acc, case, route, snapshot(ops_u, t_u), snapshot(ops_k, t_k))
+            acc.count("unrolled_copies_compared")
         # ---- independence: mutate one side, the other side's snapshot must not move
         if mut["route"] == "structure_copy":
             # wrap the structure copy so that the DeclarativeCircuit mutators are available on it
